@@ -114,8 +114,10 @@ AddQ(a, b) ==
     THEN LET x == a.n * (L \div a.d)  y == b.n * (L \div b.d) IN
          IF Abs(x) <= Bound /\ Abs(y) <= Bound THEN MkQ(x + y, L) ELSE AnyFinite
     ELSE AnyFinite
-AddN(a, b) == IF IsQ(a) /\ IsQ(b) THEN AddQ(a, b) ELSE AnyNum
-SubN(a, b) == IF IsQ(a) /\ IsQ(b) THEN AddQ(a, Q(-b.n, b.d)) ELSE AnyNum
+\* arithmetic with an operand outside the exact domain: some number, possibly non-finite, or null
+\* when the host arithmetic overflows (A5)
+AddN(a, b) == IF IsQ(a) /\ IsQ(b) THEN AddQ(a, b) ELSE PowWild
+SubN(a, b) == IF IsQ(a) /\ IsQ(b) THEN AddQ(a, Q(-b.n, b.d)) ELSE PowWild
 MulN(a, b) ==
     IF IsQ(a) /\ IsQ(b) THEN
         IF a.n = 0 \/ b.n = 0 THEN (IF a.n < 0 \/ b.n < 0 \/ ZeroSignAny(a) \/ ZeroSignAny(b) THEN ZeroAny ELSE IntV(0))
@@ -123,7 +125,7 @@ MulN(a, b) ==
              THEN LET r == Reduce(a.n * b.n, a.d * b.d) IN
                   IF Abs(r[1]) <= Bound /\ r[2] <= MaxDen THEN Q(r[1], r[2]) ELSE AnyFinite
              ELSE AnyFinite
-    ELSE AnyNum
+    ELSE PowWild
 
 RECURSIVE GCD(_, _)
 GCD(a, b) == IF b = 0 THEN a ELSE GCD(b, a % b)
